@@ -277,6 +277,18 @@ def run(ctx):
                             "Section.__str__" % len(lines))
 
     # ------------------------------------------------------------------ R1
+    # reader side: the handlers apply replace() (below); the dispatchers in
+    # front of them must not (a field expanded twice is un-escaped twice,
+    # which one escape on output does not undo)
+    PCq = "ZConfig.cfgparser.ZConfigParser"
+    for live, ref in (("handle_directive", "handle_directive"),):
+        lf = m.lookup_method(SL + ".Parser", live)
+        if lf is None:
+            raise AnalysisError("anchor vanished: %s.Parser.%s" % (SL, live))
+        r = X.compare(P, lf, X.spec_method(P, "ref_cfgparser.py", ref, PCq))
+        from rules.common import verdict
+        verdict(run, "C17.R1", lf, "directive arguments reach their "
+                "handlers as written", r, m)
     # reader side: which stored fields went through self.replace()?
     reader = {"value": _passes_replace(ctx, "handle_key_value"),
               "pkg": _passes_replace(ctx, "handle_import"),
